@@ -66,6 +66,8 @@ structure St where
   t0 : Option Nat := none
   inis : List Ini := []
   spec : Spec := {}
+  /-- exchanges whose final `SessionEstablishmentSuccess` the initiator never acknowledges (`noack=1`) -/
+  pendFinal : List Nat := []
 
 /-- slack for the virtual milliseconds the responder's answer and its acknowledgement are under way -/
 def slackMs : Nat := 200
@@ -129,6 +131,21 @@ def reap (m : Pase.St) (now : Nat) : Option Pase.St :=
         some (Pase.step { m with now := max m.now (t.since + rx) } (.rxTimeout t.exch)).1
       else if now + aliveSlackMs > t.since + rx then none
       else some m) (some m)
+
+/-- the responder's final status report was never acknowledged: at the end of the retransmission
+ladder its `send_with` fails and `handle` charges a failure (`Op.dead` on a `finishing` exchange);
+`none` = the observation falls inside the ladder (the generator must follow `noack=1` by a long `tick`) -/
+def reapFinal (m : Pase.St) (pend : List Nat) (now : Nat) : Option Pase.St :=
+  pend.foldl (fun acc k =>
+    match acc with
+    | none => none
+    | some m =>
+      match m.finishing.find? (·.1 == k) with
+      | none => some m
+      | some (_, untl) =>
+        if now ≥ untl + slackMs then
+          some { (Pase.step { m with now := min m.now untl } (.dead k)).1 with now := m.now }
+        else none) (some m)
 
 def specExpire (sp : Spec) (now : Nat) : Spec :=
   match sp.win with
@@ -222,6 +239,9 @@ def step (st : St) (line : String) : St × String :=
     match reap st.m now with
     | none => (st, "BAD a live handshake idles inside the receive-timeout band (generator must avoid this)")
     | some m0 =>
+    if !st.pendFinal.isEmpty && head ≠ "tick" then
+      (st, "BAD `noack=1` must be followed by a `tick` beyond the retransmission ladder")
+    else
     let st := { st with m := (Pase.step m0 (.tick (now - m0.now))).1 }
     let sp := st.spec
     let k := m.num "i"
@@ -309,9 +329,13 @@ def step (st : St) (line : String) : St × String :=
       let m1 := f1.st
       -- handshakes whose peer stays silent throughout a long `tick` die inside it
       let reaped : Option Pase.St :=
-        if head = "tick" then reap m1 (now + m.num "ms") else some m1
+        if head = "tick" then (reap m1 (now + m.num "ms")).bind (fun m2 => reapFinal m2 st.pendFinal (now + m.num "ms"))
+        else some m1
+      let st := if head = "tick" then { st with pendFinal := [] } else st
+      let st := if head = "pake3" && m.get "noack" = some "1" && o = .statusSuccess
+        then { st with pendFinal := k :: st.pendFinal } else st
       match reaped with
-      | none => (st, "BAD a live handshake idles inside the receive-timeout band (generator must avoid this)")
+      | none => (st, "BAD a live handshake idles inside the receive-timeout band / a `noack=1` tick ends inside the ladder (generator must avoid this)")
       | some m' =>
       -- what the initiator learns from the answer
       let st := match o with
@@ -358,7 +382,7 @@ def step (st : St) (line : String) : St × String :=
         if (implF.getD 0) ≥ 20 then some s!"window still open with {implF.getD 0} counted failures (the property says twenty)" else none
       -- (4) a failed proof is counted (once): after a Pake3 answered `InvalidParameter` the counter moved by one or the window is gone
       let c4 : Option String :=
-        if head = "pake3" && reply = "status:2" && implW then
+        if head = "pake3" && reply = "status:2" && implW && m.get "noack" ≠ some "1" then
           match sp.win, implF with
           | some (_, _, f), some f' => if f' = f + 1 then none else some s!"failed proof not counted exactly once ({f} -> {f'})"
           | _, _ => none
@@ -408,7 +432,16 @@ def step (st : St) (line : String) : St × String :=
         -- `tick` / `poll` / `abort` print `-` as reply
         let mo := if head = "tick" || head = "poll" || head = "abort" || head = "fspoll" then s!"- | {obsOf m' f1.fs}" else mo
         let mo := if head = "revoke" then s!"ok | {obsOf m' f1.fs}" else mo
-        if mo = io then (st, "ok") else (st, s!"DIS {mo}")
+        -- `noack=1`: the observation is taken while the responder task is still delivering its final status
+        -- report (it still holds the marker and the unsecured session's exchange); the model's Pake3 step ends
+        -- with the task's return (a refused proof is charged when the task returns, i.e. at the end of the ladder):
+        -- window, counter, marker and table are compared from the following `tick` on
+        let strip (x : String) : String :=
+          if head = "pake3" && m.get "noack" = some "1" then
+            " ".intercalate ((words x).filter (fun w => !(w.startsWith "m=") && !(w.startsWith "tab=") &&
+              !(w.startsWith "f=") && !(w.startsWith "w=") && !(w.startsWith "adv=") && !(w.startsWith "enh=") && !(w.startsWith "disc=")))
+          else x
+        if strip mo = strip io then (st, "ok") else (st, s!"DIS {mo}")
   | _ => (st, "BAD line")
 
 def run : IO UInt32 := Driver.runLoop ({} : St) step
